@@ -22,7 +22,7 @@ ASSUME = [
     "them from the allocator the manager and the transport share)",
     "remote endpoints are the driver's: real litep2p nodes (healthy / dialing in), a bound non-listening port, a listener "
     "that never answers, listeners that send junk (three variants), a healthy node's socket claimed for another identity or "
-    "without /p2p; all on 127.0.0.1; no DNS addresses",
+    "without /p2p, the same behind the name `localhost`, an unresolvable name; all on 127.0.0.1",
     "timing: connection_open_timeout = substream_open_timeout = T (250 ms quick); an operation is judged 'never concluded' "
     "only after 6 T + 0.5 s without any call or event (three times the longest bound: dial = connect T + negotiation T, "
     "open deadline 2 T); executions during which a 20 ms timer fired more than 2 T late are discarded and re-run, never judged",
@@ -153,7 +153,8 @@ def random_schedule(rnd, sid, T):
     h = Healthy(rnd)
     steps, outs, ins = [], [], 0
     waits = [0, 1, 5, 20, 60, T // 2, T, T + T // 4]
-    kinds = ["healthy", "healthy", "healthy", "refused", "blackhole", "garbage", "wrongid", "nop2p", "bad"]
+    kinds = ["healthy", "healthy", "healthy", "healthy", "refused", "refused", "blackhole", "blackhole", "garbage", "garbage", "wrongid",
+             "wrongid", "nop2p", "nop2p", "bad", "dns", "dns_bad"]
     for _ in range(rnd.randint(4, 14)):
         x = rnd.random()
         if x < 0.18:
@@ -163,7 +164,7 @@ def random_schedule(rnd, sid, T):
         elif x < 0.40:
             r = "r%d" % len(outs)
             outs.append(r)
-            n = rnd.choice([1, 2, 2, 3])
+            n = rnd.choice([0, 1, 1, 2, 2, 2, 3, 3])
             steps.append({"op": "open", "ref": r, "addrs": [{"kind": rnd.choice(kinds), "n": h.next()} for _ in range(n)]})
         elif x < 0.55 and outs:
             steps.append({"op": "cancel", "ref": rnd.choice(outs)})
@@ -380,6 +381,16 @@ def selftest(ctx):
         log("selftest: the unmodified trace is not clean (%s); corruption tests would be ambiguous" % base[0]["sig"])
         ok = False
 
+    def named(i, cid):
+        # the request behind connection `cid` named a peer in every address
+        for j in range(i - 1, -1, -1):
+            if '"e":"reset"' in lines[j]:
+                return False
+            c = json.loads(lines[j])
+            if c.get("e") == "call" and c["c"] in ("dial", "open") and c["cid"] == cid:
+                return all(c["wants"])
+        return False
+
     def corrupt(kind):
         idxs = list(range(len(lines)))
         rnd.shuffle(idxs)
@@ -394,7 +405,7 @@ def selftest(ctx):
                 return i, lines[:i + 1] + [json.dumps(e, separators=(",", ":"))] + lines[i + 1:]
             if kind == "accept-result-flipped" and d.get("c") == "accept" and d["ret"] == "ok":
                 d["ret"] = "err"
-            elif kind == "wrong-peer" and d.get("k") == "est" and d["dir"] == "out":
+            elif kind == "wrong-peer" and d.get("k") == "est" and d["dir"] == "out" and named(i, d["cid"]):
                 d["peer"] = "12D3KooWT2ouvz5uMmCvHJGzAGRHiqDts5hzXR7NdoQ27pGdzp9Q"
             elif kind == "failure-names-other-address" and d.get("k") == "dial_failure":
                 d["addr"] = "/ip4/10.0.0.1/tcp/1"
